@@ -18,7 +18,7 @@ import (
 func init() {
 	props["determinism"] = prop{
 		configs: func(tier string) []map[string]string {
-			return []map[string]string{{}, {"NO_COLOR": "1"}}
+			return []map[string]string{{}, {"NO_COLOR": "1"}, {"CARAPACE_MATCH": "1"}}
 		},
 		gen:   detGen,
 		run:   detRun,
@@ -30,7 +30,7 @@ func init() {
 // Batch), equal values with different descriptions, several messages, map-built lists
 func detGen(r *Rng, i int, cfg int, tier string) []string {
 	g := &exprGen{r: r}
-	shape := r.Intn(6)
+	shape := r.Intn(8)
 	note("shape=" + strconv.Itoa(shape))
 	switch shape {
 	case 0, 1: // Batch(Prefix(p1, e), Prefix(p2, e), ...): equal displays, different values
@@ -54,10 +54,26 @@ func detGen(r *Rng, i int, cfg int, tier string) []string {
 		g.expr(2)
 		g.emit("V")
 		g.emit(strList([]string{"a/b", "a/c", "a/b/c", "b/c"})...)
+	case 4: // MultiParts over values that end up with EQUAL displays and different values below one segment
+		n := 2 + r.Intn(3)
+		g.emit("MP", "1", "/", "P", "a/", "B", strconv.Itoa(n))
+		for k := 0; k < n; k++ {
+			g.emit("X", strconv.Itoa(k), "V")
+			g.emit(strList([]string{"x", "y"})...)
+		}
+	case 5: // segments that differ only in case: under CARAPACE_MATCH=1 one typed prefix reaches several of them
+		g.emit("MP", "1", "/", "V")
+		g.emit(strList([]string{"A/x", "a/x", "a/y", "A/y", "a/X", "b/x"})...)
 	default:
 		g.expr(2 + r.Intn(3))
 	}
 	v := r.Pick([]string{"", "", "a", "x", "a/", "xa"})
+	if shape == 4 {
+		v = r.Pick([]string{"a/", "a/x", ""})
+	}
+	if shape == 5 {
+		v = r.Pick([]string{"a/", "A/", "a/x", "a"})
+	}
 	cf := []string{"0", v}
 	cf = append(cf, strList(nil)...)
 	cf = append(cf, strList(nil)...)
